@@ -16,6 +16,7 @@ import SwimVerif.Proofs.Handlers
 import SwimVerif.Proofs.HandlersInv
 import SwimVerif.Proofs.AssocList
 import SwimVerif.Model.HandlersIO
+import SwimVerif.Proofs.HandlersFlush
 
 set_option linter.unusedVariables false
 namespace SwimVerif.Handlers
@@ -244,5 +245,165 @@ example : (run (trigD { demoProg with onSet := [.set 0 1, .seqNil, .seqNil] } 2)
 example : Acyclic demoProg := by decide
 example : SlotsEmpty St.init := by
   constructor <;> intro i v hi hv _ <;> simp [St.init, List.getElem?_replicate] at hv <;> (obtain ⟨_, rfl⟩ := hv; rfl)
+
+/-! ### The write flush of the agent task never re-runs the handlers of a value or map lane (exactly once)
+
+`run_agent` ends every iteration of its loop with the flush of `dirty_items`; a write it starts completes later, when
+the runtime has read the lane's output (`TaskEvent::WriteComplete`), and **only a write started for a
+`WriteResult::RequiresEvent`** makes the loop ask the lifecycle for the item's event handler again. -/
+
+/-- Only the `RequiresEvent` arm of the flush hands `requires_event = true` to `do_write` (closed table regenerated
+from `agent_model/mod.rs`), and among the `write_to_buffer`s of `swimos_agent` only the demand-map lane's mentions
+`RequiresEvent`. -/
+theorem C06_only_requires_event_is_redispatched :
+    (∀ r : Option WriteResult, (flushArm r).event = true ↔ r = some .requiresEvent) ∧
+    Generated.requiresEventSources = ["lanes/demand_map/mod.rs"] :=
+  ⟨flushArm_event, by decide⟩
+
+/-- `write_to_buffer` of a value, map or command lane never answers `RequiresEvent` — in any state of its dirty flag,
+sync queue or operation queue — and the modelled results are exactly the ones occurring in the sources. -/
+theorem C06_value_and_map_lanes_never_require_event :
+    (∀ w : Wr, w.plain = true → w.write.2 ≠ .requiresEvent) ∧
+    (∀ d s, (Wr.value d s).write.2.name ∈ Generated.valueLaneWriteResults) ∧
+    (∀ q, (Wr.map q).write.2.name ∈ Generated.mapLaneWriteResults) ∧
+    (∀ d p, (Wr.command d p).write.2.name ∈ Generated.commandLaneWriteResults) ∧
+    (∀ p m, (Wr.demandMap p m).write.2.name ∈ Generated.demandMapLaneWriteResults) := by
+  refine ⟨fun w h => (write_plain w h).2, ?_, ?_, ?_, ?_⟩
+  · intro d s
+    cases s with
+    | zero => cases d <;> simp [Wr.write, WriteResult.name, Generated.valueLaneWriteResults]
+    | succ s =>
+      simp only [Wr.write]; split <;> simp [WriteResult.name, Generated.valueLaneWriteResults]
+  · intro q
+    cases q with
+    | zero => simp [Wr.write, WriteResult.name, Generated.mapLaneWriteResults]
+    | succ q => simp only [Wr.write]; split <;> simp [WriteResult.name, Generated.mapLaneWriteResults]
+  · intro d p
+    cases d <;> cases p <;> simp [Wr.write, WriteResult.name, Generated.commandLaneWriteResults]
+  · intro p m
+    cases p <;> cases m <;> simp [Wr.write, WriteResult.name, Generated.demandMapLaneWriteResults]
+
+/-- **Exactly once, whatever the runtime reads and whenever.** Take an agent whose items are value, map and command
+lanes with no re-dispatching write in flight (`Quiet`; true initially). Then ANY interleaving of flushes (with any
+`dirty_items`), write completions (the runtime reading any lane's output at any time) and write-side changes made by
+handlers (sets, syncs, map operations: any new state of the dirty flag / sync queue / operation queue) dispatches no
+lifecycle event: the agent state seen by handlers and the trace are untouched, for every `dispatch`. So the handlers
+of a change run once — when `run_handler` sees the `Modification` — and never again when the change's event is written. -/
+theorem C06_flush_triggers_nothing_for_value_and_map_lanes (dispatch : Trig) (io : WSide) (st : St)
+    (evs : List IOEv) (hq : io.Quiet) (he : ∀ e ∈ evs, e.plain = true) :
+    (io.run dispatch st evs).2 = (st, .ok) ∧ (io.run dispatch st evs).1.Quiet :=
+  run_quiet dispatch io st evs hq he
+
+/-- … in particular from the initial write side of the harness agent (3 value lanes, 2 map lanes, 1 command lane). -/
+theorem C06_flush_triggers_nothing_from_start (dispatch : Trig) (st : St) (evs : List IOEv)
+    (he : ∀ e ∈ evs, e.plain = true) : (WSide.init.run dispatch st evs).2 = (st, .ok) :=
+  (run_quiet dispatch WSide.init st evs init_quiet he).1
+
+/-- `item_event` of a value lane ALWAYS builds a handler (`on_event(v)` then `on_set(slot, v)`), also when nothing
+changed: a dispatch the flush should not make is not silent — it shows as a second `on_event`/`on_set` with an empty
+previous value (what the monitor reports as `spurious-trigger`). -/
+theorem C06_value_item_event_is_never_silent (P : Prog) (l : Nat) (st : St) (v : VLane) (hl : l < nv)
+    (hv : st.vals[l]? = some v) :
+    (consequence P l st).2 =
+      some (.ok (.fby (bracket (.enEvent l v.content) (getH P.onEvent l) (.exEvent l))
+                      (bracket (.enSet l v.previous v.content) (getH P.onSet l) (.exSet l)))) := by
+  simp [consequence, hl, hv]
+
+/-- The legitimate case: a demand-map lane that has written its pending entry and has more keys queued answers
+`RequiresEvent`; the item leaves `dirty_items`, and when that write completes exactly the item's lifecycle event is
+dispatched (`on_cue_key` of the next key). -/
+theorem C06_requires_event_redispatches (dispatch : Trig) (io : WSide) (id : Nat) (st : St)
+    (h : io.items[id]? = some { wr := .demandMap true true, away := none }) :
+    (io.flushOne id).2 = false ∧ ((io.flushOne id).1.complete dispatch id st).2 = dispatch id st := by
+  have hlt := getElem?_lt _ _ _ h
+  have hf : io.flushOne id = (io.setItem id { wr := .demandMap false true, away := some true }, false) := by
+    simp [WSide.flushOne, h, Wr.write, flushArm, Generated.flushRequiresEventPush, Generated.flushRequiresEventEvent,
+      Generated.flushRequiresEventRetain]
+  rw [hf]
+  refine ⟨rfl, ?_⟩
+  simp [WSide.complete, WSide.setItem, List.getElem?_set_self hlt]
+
+/-- `rd` of the executable model (the runtime reads the output of some lanes, `k` rounds): with nothing suspended it
+runs no handler — lane contents, slots, trace, phase unchanged — and keeps the write side quiet. -/
+theorem C06_reads_run_no_handler (ids : List Nat) (k : Nat) (x : AgentIO) (hq : x.io.Quiet)
+    (hs : x.agent.st.susp = []) :
+    sameView (x.readRounds ids k).agent x.agent ∧ (x.readRounds ids k).io.Quiet :=
+  readRounds_view ids k x hq hs
+
+/-- A sync request runs `ValueLaneSync` / `MapLaneSync`, whose `Modification` is `no_trigger` (flags regenerated from
+the sources): `run_handler` marks the item dirty and triggers nothing. -/
+theorem C06_sync_triggers_nothing (trig : Trig) (id : Nat) (st : St) :
+    afterMod trig (some { item := id, dirty := Generated.valueSyncDirty, trigger := Generated.valueSyncTrigger }) st
+      = (st.addDirty id, .ok) ∧
+    afterMod trig (some { item := id, dirty := Generated.mapSyncDirty, trigger := Generated.mapSyncTrigger }) st
+      = (st.addDirty id, .ok) := by
+  simp [afterMod, Generated.valueSyncDirty, Generated.valueSyncTrigger, Generated.mapSyncDirty,
+    Generated.mapSyncTrigger]
+
+/-! ### Renamed lanes: the lifecycle is found through the FIELD name, whatever the external name -/
+
+/-- `initialize_agent` keeps two tables: `external_item_ids` (external name → id; requests, writes) and
+`lifecycle_item_ids` (id → `ItemSpec::lifecycle_name`, the field name; `run_handler`, `WriteComplete`). For every set
+of item specs with distinct ids, external names and field names, a request addressed to the external name of an item
+reaches that item, and a change of it is resolved to the lifecycle branch of that same item — renamed or not. -/
+theorem C06_renamed_lanes_resolve (specs : List ItemSpec) (hext : (specs.map (·.ext)).Nodup)
+    (hid : (specs.map (·.id)).Nodup) (hf : (specs.map (·.field)).Nodup) (s : ItemSpec) (hs : s ∈ specs) :
+    resolve specs s.ext = some (s.id, some s.id) := by
+  have h1 : lookupStr (externalItemIds specs) s.ext = some s.id :=
+    assoc_map_of_mem (fun x : ItemSpec => x.ext) (fun x => x.id) specs hext s hs
+  have h2 : lookupId (lifecycleItemIds specs) s.id = some s.field :=
+    assoc_map_of_mem (fun x : ItemSpec => x.id) (fun x => x.field) specs hid s hs
+  have h3 : lcBranch specs s.field = some s.id :=
+    assoc_map_of_mem (fun x : ItemSpec => x.field) (fun x => x.id) specs hf s hs
+  simp [resolve, h1, h2, h3]
+
+/-- Nothing is executed for an agent that is not running (the machine's op interpreter, write side included). -/
+theorem C06_nothing_after_stop_io (x : AgentIO) (hp : x.agent.phase ≠ .running) (line : String) :
+    (apiLineIO (some x) line).1 = some x ∨ (∃ ps, words line = "agent" :: ps) ∨
+      (∃ c ps, words line = "agentd" :: c :: ps) := by
+  unfold apiLineIO
+  split
+  · right; left; exact ⟨_, by assumption⟩
+  · right; right; exact ⟨_, _, by assumption⟩
+  · left; simp [hp]
+  · left
+    split
+    · split
+      · simp_all
+      · rfl
+    · rfl
+  · left
+    split
+    · simp_all
+    · rfl
+  · left
+    split
+    · simp_all
+    · rfl
+
+/-! ### non-vacuity of the flush statements -/
+
+/-- The harness agent: four of its five lanes are renamed, all resolve. -/
+example : agSpecs.map (resolve agSpecs ·.ext) =
+    [some (0, some 0), some (1, some 1), some (2, some 2), some (3, some 3), some (4, some 4), some (5, some 5)] := by
+  decide
+
+/-- Were `lifecycle_item_ids` built from the external names, the renamed lanes would find no lifecycle branch. -/
+example : (agSpecs.map fun s => (lookupId (agSpecs.map fun t => (t.id, t.ext)) s.id).bind (lcBranch agSpecs)) =
+    [some 0, none, none, none, none, some 5] := by decide
+
+/-- The interleaving of the slow-reader runs: v0's event is being written, a sync request and a second update queue up
+behind it, the runtime reads, the flush finds `DataStillAvailable` (sync answered, update still to write), the runtime
+reads again. No dispatch, although `dispatch` here would fail the agent if it were ever called. -/
+example : (WSide.init.run (fun _ st => (st, .err .panic)) St.init
+      [.touch 0 (.value true 0), .flush [0], .touch 0 (.value false 1), .flush [0], .touch 0 (.value true 1), .flush [0],
+       .complete 0, .flush [0], .complete 0, .flush [0], .complete 0]).2.2 = .ok := by decide
+
+example : ((WSide.init.touch (fun _ => .value true 1) 0).flushOne 0).1.items[0]? =
+    some { wr := .value true 0, away := some false } := by decide
+
+/-- A demand-map lane does re-dispatch. -/
+example : (({ items := [{ wr := .demandMap true true }] } : WSide).run (fun _ st => (st, .err .panic)) St.init
+      [.flush [0], .complete 0]).2.2 = .err .panic := by decide
 
 end SwimVerif.Handlers
